@@ -3,10 +3,10 @@
 // Each case runs in a forked child (two of the scenarios abort by design: known findings D12/D13).
 //
 //   case  =  <traits: N | 0..7 (POCCA*4+POCMA*2+POCS) | 8 (std::allocator) | 16..23 (throwing allocator assignment)> <kind> <op> <sstate> <tstate> <sid> <tid> <aid> <post>
-//   kind  :  native TU (-DNATIVE): Array ArrayIC Seg HashSet HashSetThm HashMap HashMulti TreeSet TreeMap
+//   kind  :  native TU (-DNATIVE): Array ArrayIC Seg HashSet HashMap HashMulti TreeSet TreeMap
 //            wrapper TU (-DTRAITS=k): vec set mset map mmap uset umap ummap
 //   op    :  copyc copyca movec moveca copya movea swap selfcopya selfmovea selfswap none
-//   state :  e | n<k> | c<k> (k inserted, all erased) | g<k> (hash: refused growth / multi generation) |
+//   state :  e | n<k> | c<k> (k inserted, all erased) | g<k> (hash: growth refused -> overloaded table) | h<k> (hash: relocation interrupted -> several generations) |
 //            d<k> (deep tree) | v<k> (multimap: every 2nd key value-less) | i<k> (internal capacity)
 //   post  :  none clear swapf fswap massign cassign reuse       (applied to the source S after op; F = fresh, id aid)
 //
@@ -96,8 +96,6 @@ template<typename C, typename El> struct NatSet
 };
 typedef momo::HashTraitsStd<E, Hash, Eq> HTraits;
 typedef momo::HashSet<E, HTraits, MM> NHashSet;
-typedef momo::HashTraitsStd<ElemThm, Hash, Eq> HTraitsThm;
-typedef momo::HashSet<ElemThm, HTraitsThm, MM> NHashSetThm;
 typedef momo::TreeTraitsStd<E, Less, false, momo::TreeNode<4, 2>> TTraits;
 typedef momo::TreeSet<E, TTraits, MM> NTreeSet;
 
@@ -106,11 +104,6 @@ struct AdHashSet : NatSet<NHashSet, E>
 {
 	static NHashSet make(int id) { return NHashSet(HTraits(), MM(id)); }
 	static void unusual(NHashSet& c, char kind, int n);
-};
-struct AdHashSetThm : NatSet<NHashSetThm, ElemThm>
-{
-	static NHashSetThm make(int id) { return NHashSetThm(HTraitsThm(), MM(id)); }
-	static void unusual(NHashSetThm& c, char kind, int n);
 };
 struct AdTreeSet : NatSet<NTreeSet, E>
 {
@@ -319,14 +312,14 @@ struct AdUMMap : StdMapAd<SUMMap, true>
 // refused growth: the table is at capacity; the next Buckets::Create is refused (bad_alloc) -> overloaded table.
 // With throwing-move elements a relocation failure leaves several bucket generations alive.
 template<typename HS, typename Ins>
-static void hash_unusual(HS& hs, Ins ins, int n, int64_t base, bool thm)
+static void hash_unusual(HS& hs, Ins ins, int n, int64_t base, bool multigen)
 {
 	// n - 1 ordinary insertions, then the last one with the growth refused (if the table is at capacity)
 	for (int i = 0; i < n; ++i)
 	{
 		bool last = (i == n - 1);
 		bool atcap = hs.GetCount() > 0 && hs.GetCount() >= hs.GetCapacity();
-		if (last && atcap) { if (thm) W().arm(-1, 2, -1); else W().arm(0, -1, -1); }
+		if (last && atcap) W().arm(multigen ? 1 : 0, -1, -1);
 		for (int attempt = 0; attempt < 3; ++attempt)
 		{
 			try { ins(base + 3 * i); break; }
@@ -337,12 +330,11 @@ static void hash_unusual(HS& hs, Ins ins, int n, int64_t base, bool thm)
 	if (hs.mBuckets != nullptr && (hs.mBuckets->GetNextBuckets() != nullptr || hs.GetCount() > hs.GetCapacity())) g_unusual = true;
 }
 #ifdef NATIVE
-void AdHashSet::unusual(NHashSet& c, char kind, int n) { if (kind == 'g') hash_unusual(c, [&c](int64_t v) { c.Insert(E(v)); }, n, g_base, false); }
-void AdHashSetThm::unusual(NHashSetThm& c, char kind, int n) { if (kind == 'g') hash_unusual(c, [&c](int64_t v) { c.Insert(ElemThm(v)); }, n, g_base, true); }
-void AdHashMap::unusual(NHashMap& c, char kind, int n) { if (kind == 'g') hash_unusual(c.mHashSet, [&c](int64_t v) { c.Insert(E(v), E(v + 7)); }, n, g_base, false); }
+void AdHashSet::unusual(NHashSet& c, char kind, int n) { if (kind == 'g' || kind == 'h') hash_unusual(c, [&c](int64_t v) { c.Insert(E(v)); }, n, g_base, kind == 'h'); }
+void AdHashMap::unusual(NHashMap& c, char kind, int n) { if (kind == 'g' || kind == 'h') hash_unusual(c.mHashSet, [&c](int64_t v) { c.Insert(E(v), E(v + 7)); }, n, g_base, kind == 'h'); }
 #elif TRAITS < 16
-void AdUSet::unusual(SUSet& c, char kind, int n) { if (kind == 'g') hash_unusual(c.mHashSet, [&c](int64_t v) { c.insert(E(v)); }, n, g_base, false); }
-void AdUMap::unusual(SUMap& c, char kind, int n) { if (kind == 'g') hash_unusual(c.mHashMap.mHashSet, [&c](int64_t v) { c.emplace(E(v), E(v + 7)); }, n, g_base, false); }
+void AdUSet::unusual(SUSet& c, char kind, int n) { if (kind == 'g' || kind == 'h') hash_unusual(c.mHashSet, [&c](int64_t v) { c.insert(E(v)); }, n, g_base, kind == 'h'); }
+void AdUMap::unusual(SUMap& c, char kind, int n) { if (kind == 'g' || kind == 'h') hash_unusual(c.mHashMap.mHashSet, [&c](int64_t v) { c.emplace(E(v), E(v + 7)); }, n, g_base, kind == 'h'); }
 #endif
 
 // ------------------------------------------------------------------------------------------- generic driver
@@ -352,7 +344,7 @@ template<typename Ad> static void build(typename Ad::Cont& c, const std::string&
 {
 	char k = st[0]; int n = st.size() > 1 ? atoi(st.c_str() + 1) : 0;
 	if (k == 'e') return;
-	if (k == 'g') { g_base = base; Ad::unusual(c, 'g', n); return; }
+	if (k == 'g' || k == 'h') { g_base = base; Ad::unusual(c, k, n); return; }
 	for (int i = 0; i < n; ++i) Ad::ins(c, base + 3 * i);
 	if (Ad::multi && Ad::crew && k != 'c') for (int i = 0; i < n; i += 4) Ad::ins(c, base + 3 * i);   // duplicates
 	if (k == 'c') Ad::erase_all(c);
@@ -509,7 +501,6 @@ static bool dispatch(const Case& cs, FILE* out)
 	else if (cs.kind == "ArrayIC") run_case<NatSeq<NArrayIC, false>>(cs, out);
 	else if (cs.kind == "Seg") run_case<NatSeq<NSeg, true>>(cs, out);
 	else if (cs.kind == "HashSet") run_case<AdHashSet>(cs, out);
-	else if (cs.kind == "HashSetThm") run_case<AdHashSetThm>(cs, out);
 	else if (cs.kind == "HashMap") run_case<AdHashMap>(cs, out);
 	else if (cs.kind == "HashMulti") run_case<AdHashMulti>(cs, out);
 	else if (cs.kind == "TreeSet") run_case<AdTreeSet>(cs, out);
